@@ -130,6 +130,12 @@ def runner_case(case):
             futs.add(f)
             pendingf[id(f)] = u
         delivered = []
+        if case[2] == "late":
+            # the consumer is busy until every unit has finished: several futures are done at the same poll
+            t_end = time.monotonic() + 60
+            while time.monotonic() < t_end and not all(f.done() for f in list(futs._futures)):
+                time.sleep(0.05)
+            time.sleep(0.1)
         for _ in units:
             f = futs.as_completed()
             t = time.monotonic()
@@ -322,6 +328,9 @@ def run(ctx):
             shapes.append((W, units))
     for W, units in shapes:
         rcases.append((W, units, None))
+    # late consumers: all futures are done before the first as_completed()
+    for W, units in [(3, [(2, 0), (1, 1), (3, 0), (1, 0)]), (2, [(1, 0), (2, 0), (1, 1)]), (1, [(1, 0), (1, 0)])] + ([] if quick else shapes[4:10]):
+        rcases.append((W, units, "late"))
     rres = H.run_many(runner_case, rcases, jobs=8, timeout=300)
     reqs, keep = [], []
     for case, (tag, res) in zip(rcases, rres):
@@ -358,7 +367,7 @@ def run(ctx):
         fin = sorted(e[0] for e in res["events"] if e[1] == "f")
         others = sorted(e[0] for e in res["events"] if e[1] == "S")
         gap = min([b - a for a, b in zip(fin, fin[1:])] + [abs(a - b) for a in fin for b in others] + [9.0])
-        if gap < 0.08:
+        if gap < 0.08 and case[2] != "late":
             ctx.dist("runner:ambiguous_order_skipped")
             continue
         toks, err = trace_to_model(W, res["events"])
@@ -393,6 +402,6 @@ def replay(doc):
         print(tag, res)
         return 0 if tag == "ok" else 1
     c = rp["rcase"]
-    (tag, res), = H.run_many(runner_case, [(c[0], [tuple(x) for x in c[1]], None)], jobs=1)
+    (tag, res), = H.run_many(runner_case, [(c[0], [tuple(x) for x in c[1]], c[2])], jobs=1)
     print(tag, res)
     return 0 if tag == "ok" else 1
